@@ -10,6 +10,9 @@
 #include "diff.hpp"
 #include "harness.hpp"
 
+#include <map>
+#include <set>
+
 extern "C" {
 unsigned cur_type_count();
 const char* cur_type_name(unsigned);
@@ -69,20 +72,52 @@ const std::vector<std::string>& curTypes() {
 	return v;
 }
 
+const size_t kTE = 13; // bytes per trace entry: hint(1) size(4) alloc(4) offset(4)
+
+// the (kind, width) part of a trace
+std::string shapeOf(const std::string& tr) {
+	std::string o;
+	for (size_t i = 0; i + kTE <= tr.size(); i += kTE)
+		o.append(tr, i, 5);
+	return o;
+}
+
 std::string traceDiff(const std::string& a, const std::string& b) {
 	static const char* hints[] = {"raw", "bool", "enum", "integral", "float", "half", "pod", "blockref", "stringindex"};
-	size_t na = a.size() / 5, nb = b.size() / 5;
+	size_t na = a.size() / kTE, nb = b.size() / kTE;
 	for (size_t i = 0; i < na && i < nb; i++)
-		if (memcmp(a.data() + i * 5, b.data() + i * 5, 5) != 0) {
+		if (memcmp(a.data() + i * kTE, b.data() + i * kTE, 5) != 0) {
 			auto show = [&](const std::string& s) {
 				uint32_t sz;
-				memcpy(&sz, s.data() + i * 5 + 1, 4);
-				uint8_t h = static_cast<uint8_t>(s[i * 5]);
+				memcpy(&sz, s.data() + i * kTE + 1, 4);
+				uint8_t h = static_cast<uint8_t>(s[i * kTE]);
 				return std::string(h < 9 ? hints[h] : "?") + "/" + std::to_string(sz);
 			};
 			return "read #" + std::to_string(i) + ": reference " + show(a) + ", current " + show(b);
 		}
 	return "reference issues " + std::to_string(na) + " reads, current " + std::to_string(nb);
+}
+
+// Field identity: for every heap allocation (numbered by first use) the offsets read into are
+// replaced by their rank among that allocation's distinct offsets, so an added member or padding
+// does not matter but reading two same-typed fields in the other order does.
+std::vector<int64_t> fieldRanks(const std::string& tr) {
+	size_t n = tr.size() / kTE;
+	std::map<int32_t, std::set<uint32_t>> offs;
+	std::vector<std::pair<int32_t, uint32_t>> e(n);
+	for (size_t i = 0; i < n; i++) {
+		memcpy(&e[i].first, tr.data() + i * kTE + 5, 4);
+		memcpy(&e[i].second, tr.data() + i * kTE + 9, 4);
+		if (e[i].first >= 0)
+			offs[e[i].first].insert(e[i].second);
+	}
+	std::vector<int64_t> r(n, -1);
+	for (size_t i = 0; i < n; i++)
+		if (e[i].first >= 0) {
+			auto& s = offs[e[i].first];
+			r[i] = (static_cast<int64_t>(e[i].first) << 32) | static_cast<int64_t>(std::distance(s.begin(), s.find(e[i].second)));
+		}
+	return r;
 }
 
 Verdict crossRead(const std::string& F, const std::string& label, const std::string& version, Run& run, const std::string& sigBase) {
@@ -157,13 +192,23 @@ Verdict prop(Tape& t, Run& run) {
 		return OK;
 	}
 	if (run.wantSample())
-		run.sample(J().s("type", type).s("version", version).u("payload_bytes", c.payload.size()).u("reads", c.trace.size() / 5).s("payload_hex_prefix", to_hex(c.payload.substr(0, 40))).str());
+		run.sample(J().s("type", type).s("version", version).u("payload_bytes", c.payload.size()).u("reads", c.trace.size() / kTE).s("payload_hex_prefix", to_hex(c.payload.substr(0, 40))).str());
 	if (c.payload.size() > 0) {
 		uint64_t h = fnv1a(c.payload, fnv1a(type));
 		run.nontriv(hash_mix(h, vi));
 	}
-	if (c.trace != r.trace)
+	if (shapeOf(c.trace) != shapeOf(r.trace))
 		return run.fail(sigBase + ":trace", detail("the two builds read the block with a different field sequence", traceDiff(r.trace, c.trace)));
+	{
+		auto fr = fieldRanks(r.trace), fc = fieldRanks(c.trace);
+		for (size_t i = 0; i < fr.size() && i < fc.size(); i++)
+			if (fr[i] != fc[i])
+				return run.fail(sigBase + ":field-identity",
+								detail("same kinds and widths, but read #" + std::to_string(i) + " is stored into a different member (reference: allocation " + std::to_string(fr[i] >> 32) + " field-rank "
+										   + std::to_string(fr[i] & 0xffffffff) + ", current: allocation " + std::to_string(fc[i] >> 32) + " field-rank " + std::to_string(fc[i] & 0xffffffff)
+										   + "): two same-typed fields are read in the other order",
+									   ""));
+	}
 	if (c.payload != r.payload)
 		return run.fail(sigBase + ":trace", detail("same read sequence but different recorded payload", ""));
 	return crossRead(c.file, type, version, run, sigBase);
